@@ -10,7 +10,7 @@ import re
 
 NAMES = ['', 'div', 'a', 'x-y', 'ns:el', 'h$', 'Foo']
 DECOS = ['#id', '.cls', '.c_d-e', '.item$', '.i$$@-', '.i$@3', '[a=b]', '[a="b c"]', "[a='b']", '[a b]', '[a=b c="d e"]',
-         '[a.]', '{t}', '{a b}', '{a > b}', '{$}']
+         '[a.]', '{t}', '{a b}', '{a > b}', '{$}', '{[}']
 SUFFIXES = ['', '*3', '*', '/']
 TAILS = ['a', '.c', '{t}']
 # representatives for the exhaustive 3-element combinations
@@ -166,15 +166,41 @@ def tag_lookalike(left, abbr):
     """True when the text in front of some top-level child operator `>` of `abbr` (seen together with the visible
     left context) ends like an HTML tag with an unquoted last attribute, e.g. `li[title=x]*3>` or `<a href=x>#id>`.
     Purely syntactic; over-approximates the inputs on which is_html() answers "this `>` closes a tag"."""
-    depth = 0
-    for i, ch in enumerate(abbr):
-        if ch in '[{':
-            depth += 1
-        elif ch in ']}':
-            depth -= 1
-        elif ch == '>' and depth == 0 and _LOOK.search(left + abbr[:i]):
+    for i in top_level_child_operators(abbr):
+        if _LOOK.search(left + abbr[:i]):
             return True
     return False
+
+
+def top_level_child_operators(abbr):
+    """indexes of the `>` characters of a (valid) abbreviation that are child operators: outside `{text}` (nested
+    braces counted, everything else literal) and outside `[attributes]` (quoted values skipped)"""
+    out = []
+    i, n = 0, len(abbr)
+    while i < n:
+        ch = abbr[i]
+        if ch == '{':
+            depth = 1
+            i += 1
+            while i < n and depth:
+                depth += 1 if abbr[i] == '{' else -1 if abbr[i] == '}' else 0
+                i += 1
+            continue
+        if ch == '[':
+            i += 1
+            while i < n and abbr[i] != ']':
+                if abbr[i] in '"\'':
+                    q = abbr[i]
+                    i += 1
+                    while i < n and abbr[i] != q:
+                        i += 1
+                i += 1
+            i += 1
+            continue
+        if ch == '>':
+            out.append(i)
+        i += 1
+    return out
 
 
 def _selfcheck():
